@@ -483,4 +483,67 @@ func c13(c *ctx) {
 	r.Analysed["binary_searches"] = nBS
 	r.OK("R5/summary", "?", fmt.Sprintf("%d binary searches over slices examined", nBS))
 
+	// ------------------------------------------------------------------ R6
+	r.Rule("R6", "COVER", "who is seated is decided by the canonical order: every sort getValidatorSet applies to the candidate list (directly or in a helper) uses a comparator that reads both Validator.StakedAmount and Validator.Address — the (stake, address) order is total, so cutting the list to the cap after it seats the same members on every node; a stake-only ranking leaves the members at the cap boundary to the sorting algorithm", 1)
+	getVS := c.fnQuiet("fsm.(*StateMachine).getValidatorSet")
+	stakeF, addrF := c.field("fsm", "Validator", "StakedAmount"), c.field("fsm", "Validator", "Address")
+	if getVS != nil && stakeF != nil && addrF != nil {
+		nSort := 0
+		for _, g := range bodyFuncs(getVS, true) {
+			instrs(g, func(in ssa.Instruction) {
+				call, ok := in.(*ssa.Call)
+				if !ok {
+					return
+				}
+				n := calleeName(call.Common())
+				if !(strings.HasPrefix(n, "slices.SortFunc") || strings.HasPrefix(n, "slices.SortStableFunc") || strings.HasPrefix(n, "sort.Slice")) {
+					return
+				}
+				args := call.Common().Args
+				if len(args) < 2 {
+					return
+				}
+				var cmpFn *ssa.Function
+				switch x := stripLift(args[len(args)-1]).(type) {
+				case *ssa.MakeClosure:
+					cmpFn, _ = x.Fn.(*ssa.Function)
+				case *ssa.Function:
+					cmpFn = x
+				}
+				nSort++
+				key := "R6/getValidatorSet/sort-comparator"
+				if cmpFn == nil {
+					r.Bad(key, c.p.Pos(call.Pos()), "the comparator of this sort of the candidate list cannot be resolved to a function")
+					return
+				}
+				reads := map[*types.Var]bool{}
+				var scan func(f *ssa.Function, depth int)
+				scan = func(f *ssa.Function, depth int) {
+					for _, h := range withAnons(f) {
+						instrs(h, func(i2 ssa.Instruction) {
+							switch y := i2.(type) {
+							case *ssa.FieldAddr:
+								if fv := fieldOfAddr(y); fv != nil {
+									reads[fv] = true
+								}
+							case *ssa.Field:
+								if st := derefStruct(y.X.Type()); st != nil && y.Field < st.NumFields() {
+									reads[st.Field(y.Field)] = true
+								}
+							case *ssa.Call:
+								if sc := y.Common().StaticCallee(); sc != nil && depth < 2 && inCanopy(sc) {
+									scan(origin(sc), depth+1)
+								}
+							}
+						})
+					}
+				}
+				scan(cmpFn, 0)
+				r.Check(reads[stakeF] && reads[addrF], key, c.p.Pos(call.Pos()), "orders by stake and address",
+					fmt.Sprintf("getValidatorSet sorts the candidates with a comparator that reads StakedAmount=%v, Address=%v: without the address tie-break the order of equal stakes — and, once the list is cut to the cap, the membership — is left to the sorting algorithm", reads[stakeF], reads[addrF]))
+			})
+		}
+		r.Check(nSort >= 1, "R6/getValidatorSet/sorts", c.p.Pos(getVS.Pos()), fmt.Sprintf("%d sort(s) of the candidate list", nSort), "getValidatorSet no longer sorts the candidates (rule needs re-reading)")
+	}
+
 }
